@@ -13,7 +13,7 @@ EXTENDS PyScope, Json, IOUtils
 Cases == JsonDeserialize(IOEnv.CASES)
 AllFlags == {"defaults-first", "weak-self", "native-no-enclosing", "class-no-enclosing", "global-decl-leaks",
              "del-global-silent"}
-MarkNames == {"comp", "excas", "ndflt", "dyncap", "nldyn", "annloc"}      \* "ucap" is no longer an excusing locus: repaired in /repo (61bc182)
+MarkNames == {"comp", "excas", "ndflt", "dyncap"}      \* "ucap", "nldyn", "annloc" are no longer excusing loci: repaired in /repo (61bc182, 197a1eb, annotated assignments)
 NotDemanded == {"sv", "xdel"}
 
 RECURSIVE FirstDiff(_, _, _)
